@@ -150,6 +150,7 @@ func (g *generator) walkDefinition(schema *schemaparser.Schema) (ast.Type, error
 	//nolint: gocritic
 	if len(schema.Types) > 1 {
 		def, err = g.walkScalarDisjunction(schema.Types)
+		def.Default = unwrapJSONNumbers(schema.Default)
 	} else if schema.Enum != nil {
 		def, err = g.walkEnum(schema)
 	} else {
@@ -244,7 +245,7 @@ func (g *generator) walkOneOf(schema *schemaparser.Schema) (ast.Type, error) {
 		return ast.Type{}, err
 	}
 
-	return ast.NewDisjunction(branches), nil
+	return ast.NewDisjunction(branches, ast.Default(unwrapJSONNumbers(schema.Default))), nil
 }
 
 // TODO: what's the difference between oneOf and anyOf?
@@ -258,7 +259,7 @@ func (g *generator) walkAnyOf(schema *schemaparser.Schema) (ast.Type, error) {
 		return ast.Type{}, err
 	}
 
-	return ast.NewDisjunction(branches), nil
+	return ast.NewDisjunction(branches, ast.Default(unwrapJSONNumbers(schema.Default))), nil
 }
 
 func (g *generator) walkAllOf(schema *schemaparser.Schema) (ast.Type, error) {
